@@ -708,12 +708,14 @@ def gen_random(rng, n, marked_all=True):
         yield lib, page, "random"
 
 
-def chain_program(depth, shared):
+def chain_program(depth, shared, looped=False):
     """depth components; shared: each is the ROOT of its parent (all ids on the same elements);
-    otherwise each sits inside a <div> of its parent (nesting depth)."""
+    otherwise each sits inside a <div> of its parent (nesting depth); looped: every level renders its child from
+    inside a {% for %} loop over one item (forloop.parentloop grows with the depth)."""
     lib = []
     for k in range(depth - 1):
-        lib.append(([Cc(k + 1)] if shared else [E("div", Cc(k + 1)), T], True))
+        child = R(1, Cc(k + 1)) if looped else Cc(k + 1)
+        lib.append(([child] if shared else [E("div", child), T], True))
     lib.append(([E("p", E("span")), T, E("div")], True))
     return lib, [Cc(0)]
 
@@ -755,7 +757,7 @@ def run_case(chk, lib, page, mode, api, kind, terms, cases, ids="counter", resee
     order = {x: i for i, x in enumerate(logged)}
     ctoks = canon_tokens(toks, order)
     if kind.startswith("chain"):
-        fuel = 2 * len(lib) + 10          # (the reference is recursive Python; chains go far beyond the interpreter's limit)
+        fuel = 4 * len(lib) + 10          # (the reference is recursive Python; chains go far beyond the interpreter's limit)
     else:
         ref, ninst, fuel = reference_doc(lib, page)
         if canon_tokens(ref) != ctoks:
@@ -829,12 +831,16 @@ def run(tier, seed):
     for i, (lib, page, kind) in enumerate(gen_random(chk.rng, 40000 if thorough else 5000)):
         run_case(chk, lib, page, "django" if i % 2 else "isolated", "template", kind, terms, cases)
     # ---- chains: nesting depth and shared roots, far beyond the interpreter's recursion limit ----
-    for depth, shared in ([(30, True), (30, False), (300, True), (300, False)] +
-                          ([(2000, True), (2000, False)] if thorough else [])):
-        lib, page = chain_program(depth, shared)
+    chains = [(30, True, False, "django"), (30, False, False, "django"), (300, True, False, "django"), (300, False, False, "django"),
+              (30, False, True, "isolated"), (600, False, True, "django"), (600, True, True, "isolated")]
+    if thorough:
+        chains += [(2000, True, False, "django"), (2000, False, False, "django"), (2000, False, True, "django"), (2000, True, True, "isolated")]
+    for depth, shared, looped, mode in chains:
+        lib, page = chain_program(depth, shared, looped)
         t0 = time.time()
-        run_case(chk, lib, page, "django", "template", "chain%d%s" % (depth, "s" if shared else "n"), terms, cases)
-        chk.extra.setdefault("chain_render_s", {})["%d%s" % (depth, "shared" if shared else "nested")] = round(time.time() - t0, 2)
+        tag = "%d%s%s" % (depth, "s" if shared else "n", "-loop" if looped else "")
+        run_case(chk, lib, page, mode, "template", "chain" + tag, terms, cases)
+        chk.extra.setdefault("chain_render_s", {})[tag] = round(time.time() - t0, 2)
     # ---- real (random) ids: the library's own id generator, full pipeline ----
     real_ids(chk, 1500 if thorough else 400, terms, cases)
     t0 = time.time()
@@ -865,7 +871,7 @@ def run(tier, seed):
              "of seeded change C14a); the layout pattern (12 x 12 x 5 x 2 x 7 shapes%s: forwarded slots, Python renders, a later root "
              "component waiting); all 3-level libraries over %d x %d x %d template shapes x 4 fills%s; seeded random programs; single-root "
              "pages through Component.render (with and without render_dependencies); chains of depth 30/300%s both as nested elements and as "
-             "component-is-root chains; a batch with the library's own random id generator. Non-trivial = the output has an element shared "
+             "component-is-root chains, and chains where every level renders its child inside a one-item {%% for %%} loop (depth 600, thorough 2000); a batch with the library's own random id generator. Non-trivial = the output has an element shared "
              "by >= 2 instances AND an element inside an instance that is not a root. Distinct = distinct (program, mode, api, id supply). "
              "kind suffix +reent = a re-entrant root run happened while attribute entries of the interrupted run were pending."
              % ("" if thorough else " (every 9th in quick)", len(shapes(1)), len(shapes(2)), len(shapes(None)),
